@@ -249,11 +249,15 @@ fn mutate(rng: &mut Rng, m: &MHubMsg, kind: &str) -> Vec<u8> {
             // transfers only: overwrite the amount with a boundary value
             let inner = match &m.inner {
                 MItsMsg::Transfer { token_id, source, dest, data, .. } => {
-                    let (lo, hi): (u128, u128) = match rng.below(5) {
+                    let (lo, hi): (u128, u128) = match rng.below(8) {
                         0 => (1u128 << 127, 0),
                         1 => (u128::MAX, 0),
                         2 => (0, 1),
                         3 => (0, 1u128 << 127),
+                        // every limb boundary of the 256-bit word, with an innocent low part
+                        4 => (1000, 1),
+                        5 => (1000, 1 << 63),
+                        6 => (1000, 1 << 64),
                         _ => (i128::MAX as u128, 0),
                     };
                     MItsMsg::Transfer { token_id: *token_id, source: source.clone(), dest: dest.clone(), amount: lo, amount_hi: hi, data: data.clone() }
